@@ -69,6 +69,13 @@ this is `d = 0` (theorem `osu_den_zero_or_ge`). -/
 def OsuState.accuracy (s : OsuState) (o : OsuOrigin) : Rat :=
   if s.accDen o = 0 then 0 else s.accNum o / s.accDen o
 
+/-- `OsuScoreState::accuracy(Stable)` with the `u32` arithmetic of a release build (wrapping
+`6 * n300 + …` and `6 * (n300 + n100 + n50 + misses)`); a debug build panics instead of wrapping. -/
+def OsuState.accuracyStableWrapped (s : OsuState) : Rat :=
+  let num : Nat := (6 * s.n300 + 2 * s.n100 + s.n50) % 4294967296
+  let den : Nat := (6 * (s.totalHits % 4294967296)) % 4294967296
+  if den = 0 then 0 else (num : Rat) / (den : Rat)
+
 /-- `NoComboState::accuracy` (src/osu/performance/mod.rs), integer weights 300/100/50/150/30/10 -/
 def OsuState.noComboAccuracy (s : OsuState) (o : OsuOrigin) : Rat :=
   let num0 := 300 * s.n300 + 100 * s.n100 + 50 * s.n50
